@@ -311,6 +311,9 @@ class FnTranslator:
             if self.interior and name == "find" and len(e) == 4 and e[3][0] == "closure" and e[1][0] == "mcall" and \
                     S(e[1][2]) in ("into_iter", "iter") and len(e[1]) == 3:
                 return self.array_find(e[1][1], e[3])
+            if self.interior and name == "any" and len(e) == 4 and e[3][0] == "closure" and e[1][0] == "mcall" and \
+                    S(e[1][2]) in ("into_iter", "iter") and len(e[1]) == 3:
+                return self.array_any(e[1][1], e[3])
             if self.interior and name == "unwrap_or_else" and len(e) == 4 and e[3][0] == "closure" and len(e[3][1]) == 1:
                 return "(EMatch %s [(PCon \"Some\" [PVar \"unwrap_v\"], EVar \"unwrap_v\"); (PCon \"None\" [], %s)])" % (
                     self.expr(e[1]), self.expr(e[3][2]))
@@ -583,6 +586,18 @@ class FnTranslator:
                 "STail (EIf %s (EAssign \"flt_acc%d\" [] (ECall \"push\" [EVar \"flt_acc%d\"; EVar %s])) (EConst VUnit))])); "
                 "STail (EVar \"flt_acc%d\")])" % (n, self.expr(src), n, n, n, cs(v), n, n, cond, n, n, cs(v), n))
 
+    def array_any(self, src, clo):
+        """`xs.iter().any(|v| COND)`: whether some element satisfies COND (COND has no effects: evaluating it on the elements
+        after the first hit, which `any` skips, changes nothing)"""
+        v, cond = self.closure1(clo)
+        self.hof_no = getattr(self, "hof_no", 0) + 1
+        n = self.hof_no
+        return ("(EBlock [SLet (PVar \"any_src%d\") %s; SLet (PVar \"any_res%d\") (EConst (VBool false)); "
+                "SExpr (EFor \"any_i%d\" (EConst (VNat 0)) (ECall \"len\" [EVar \"any_src%d\"]) "
+                "(EBlock [SLet (PVar %s) (EIndex (EVar \"any_src%d\") (EVar \"any_i%d\")); "
+                "STail (EIf %s (EAssign \"any_res%d\" [] (EConst (VBool true))) (EConst VUnit))])); "
+                "STail (EVar \"any_res%d\")])" % (n, self.expr(src), n, n, n, cs(v), n, n, cond, n, n))
+
     def array_find(self, src, clo):
         """`xs.iter().find(|v| COND)`: Some of the first element satisfying COND, else None"""
         v, cond = self.closure1(clo)
@@ -667,6 +682,8 @@ def translate_fn(sx, self_type=None, struct_fields=None, qualified=None, setup=N
     body = sx[5]
     t.param_types = dict(params)
     for pn, pt in params:
+        if pt == "&mut self" and getattr(t, "stateless_self", False) and not t.struct_fields:
+            continue                # `&mut self` of a type without fields: there is nothing to mutate
         if "&mut" in pt.replace(" ", "") or pt == "&mut self":
             raise TranslateError("fn %s: parameter %s is a mutable reference (aliasing is not modelled)" % (name, pn))
         if pn.startswith("?"):
@@ -998,6 +1015,32 @@ def translate_msg_new():
     return out
 
 
+def translate_fold():
+    """sylvia-derive/src/fold.rs: `StripInput` - what is removed from the user's item before it is re-emitted."""
+    def setup(t):
+        t.interior = True
+        t.stateless_self = True
+    FOREIGN.update({"SylviaAttribute::new": "call:extern::SylviaAttribute::new",
+                    "fold::fold_trait_item_fn": "fold::fold_trait_item_fn", "fold::fold_impl_item_fn": "fold::fold_impl_item_fn",
+                    "fold::fold_item_trait": "fold::fold_item_trait", "fold::fold_item_impl": "fold::fold_item_impl"})
+    kv = fetch_ast(os.path.join(common.REPO, "sylvia-derive", "src", "fold.rs"))
+    known = {"extern::SylviaAttribute::new", "remove_input_attr", "push", "is_some", "is_none", "is_empty", "len"}
+    out = translate_methods("fold.rs", {"StripInput": ["fold_trait_item_fn", "fold_impl_item_fn", "fold_item_trait", "fold_item_impl"]},
+                            setup=setup, kv=kv, extra_known=known)
+    rm = None
+    for k, v in kv:
+        if k == "fn":
+            sx = parse_sx(v)
+            if S(sx[1]) == "remove_input_attr":
+                rm, cl = translate_fn(sx, setup=setup)
+                bad = cl - BUILTINS - known
+                if bad:
+                    raise TranslateError("remove_input_attr calls %s" % sorted(bad))
+    if rm is None:
+        raise TranslateError("fold.rs: fn remove_input_attr not found")
+    return out + [rm]
+
+
 MT_LOGIC_EXTERNS = {"crate_module", "emit_bracketed_generics", "get_ident_from_type"}
 
 
@@ -1187,6 +1230,10 @@ def generate():
     except TranslateError as e:
         msgnew, _ = [], errors.append("macro logic (message constructors: */communication/enum_msg.rs, struct_msg.rs): %s" % e)
     try:
+        foldfns = translate_fold()
+    except TranslateError as e:
+        foldfns, _ = [], errors.append("macro logic (fold.rs StripInput): %s" % e)
+    try:
         bridge = translate_bridge_logic()
     except TranslateError as e:
         bridge, _ = [], errors.append("macro logic (bridged arms: interfaces.rs, msg_type.rs): %s" % e)
@@ -1246,6 +1293,9 @@ def generate():
                                  "interface/communication/enum_msg.rs)", [
             "(* EnumMessage::new of the contract side and of the interface side, StructMessage::new: the forwarded msg_attr lines of a kind *)",
             "Definition msgnew_fns : program :=", prog(msgnew)]),
+        "GenImpFold.v": gen_file("what is removed from the user's item before it is re-emitted (fold.rs)", [
+            "(* StripInput: fold_trait_item_fn, fold_impl_item_fn, fold_item_trait, fold_item_impl, remove_input_attr *)",
+            "Definition fold_fns : program :=", prog(foldfns)]),
         "GenImpBridge.v": gen_file("the contract-level message (types/interfaces.rs, types/msg_type.rs, contract/communication/wrapper_msg.rs)", [
             "(* Interfaces::emit_*, MsgType::emit_ctx_dispatch_values, GlueMessage::emit *)",
             "Definition bridge_fns : program :=", prog(bridge)])}
